@@ -264,7 +264,7 @@ Fixpoint xdec (fuel : nat) (ofm : bool) (bt : list string) (t : xty) (e : xml)
       if ofm then
         match xenum_value items numeric (x_tag e) with
         | Some v => Ok v
-        | None => Err EDecode                     (* decode_of: KeyError -> DecodeError *)
+        | None => if ext then Ok XNone else Err EDecode      (* decode_of (repaired, 3c3d4be) *)
         end
       else
         match x_kids e with
@@ -287,7 +287,7 @@ Fixpoint xdec (fuel : nat) (ofm : bool) (bt : list string) (t : xty) (e : xml)
       if ofm then
         match lookup (x_tag e) alts with
         | Some ta => let* v := xdec f false bt ta e in Ok (XChoice (x_tag e) v)
-        | None => Err EDecode
+        | None => if ext then Ok XUnknownChoice else Err EDecode
         end
       else
         match x_kids e with
